@@ -4,10 +4,24 @@ Malformed stream: valid generated queries (C01 generator) with ONE unsupported c
 at a random live position, plus malformed metadata and top-level shape errors; the real pipeline
 must raise. The dispatch tables of the translator are regenerated from source (tie T) and the
 visitor model predicts refusal for the table-driven grafts (tie K).
+
+Two further families, each case with a well-formed *twin* (same host, same position, only the one
+malformation taken back) that must translate:
+  * wrong-arity calls — a callee with a fixed parameter list (function / method declared through
+    `add_cpp_function`, DeltaR, getAttributeFloat / getAttributeVectorFloat, an event-collection accessor,
+    Range, First, Count, ResultTTree) written with fewer or more arguments, or in the other call style;
+  * malformed metadata — job-script blocks that contradict each other, dangle or form a circle (the
+    malformation sits in a second copy of a block as often as in the block), contradictory `inject_code`
+    blocks, dictionaries with a needed key missing or misspelt, a stray key where the kind has a
+    whitelist, an unknown / missing / non-text `metadata_type`; the blocks spread over random places of
+    the metadata chain.
+The Spec predicates (`callWellFormed`, `mdMalformed`, `injectConflict`, `jobMalformed`) are evaluated by
+the Lean driver on the input; the clause `refusedIfMalformed` on the implementation's outcome is the judge.
 """
 from __future__ import annotations
 
 import copy
+import json
 from pathlib import Path
 
 import cgroup
@@ -25,17 +39,35 @@ THEOREMS = [
     "FaxVerif.C09.tables_recognised",
     "FaxVerif.C09.documented_present",
     "FaxVerif.C09.undocumented_refused",
+    "FaxVerif.C09.call_refuses_exactly",
+    "FaxVerif.C09.surplus_argument_refused",
+    "FaxVerif.C09.missing_argument_refused",
+    "FaxVerif.C09.md_refuses_exactly",
+    "FaxVerif.C09.md_any_position",
+    "FaxVerif.C09.md_kinds_documented",
+    "FaxVerif.C09.inject_refuses_exactly",
+    "FaxVerif.C09.jobscript_refuses_exactly",
 ]
 RULE = (
     "valid type-directed queries (C01 generator, three backends) with one unsupported construct grafted at a random live position: "
     "operator outside the tables (//, @, <<, >>, &, |, ^, ~), comparison chain, unknown node kinds (set / list comprehension / f-string / "
     "starred / lambda as value), slice, arithmetic on a sequence, a value used as a sequence, Aggregate without seed / with a lambda seed, "
     "raw objects as output, templated getAttribute, call keywords; plus malformed / unknown metadata and non-call tops. "
-    "A case is non-trivial when the host query has >=2 operators; distinct = distinct (backend, grafted query)."
+    "A case is non-trivial when the host query has >=2 operators; distinct = distinct (backend, grafted query). "
+    "Wrong-arity family: a callee with a fixed parameter list (add_cpp_function function with 0..3 / method with 0..2 parameters, DeltaR, "
+    "getAttributeFloat, getAttributeVectorFloat, collection accessor, Range, First, Count at a random live position; ResultTTree) written with "
+    "0..declared+2 arguments (never the declared number in the declared style), 20% in the other call style. Metadata family: job-script "
+    "blocks (1-4 names, copies, DAG) with one conflict / dangling dependency / circle put into a block or into a further copy of it (ATLAS); "
+    "inject_code blocks with one contradictory copy; one dictionary of every kind with a needed key dropped or misspelt, a stray key (kinds "
+    "with a whitelist), a near-miss / missing / non-text metadata_type, the element_type contradiction; blocks placed at random places of "
+    "the metadata chain. In both families a case is non-trivial when its well-formed twin (the malformation taken back) is translated. "
+    "Left out on purpose (listed findings): surplus arguments of Select / Where / SelectMany."
 )
 TRUSTED_BASE = [
     "tools/translate/c09_tables.py (reads visit_/call_ method names and the three operator dict literals with Python's ast)",
     "the visitor model is a coarse model of the dispatch (kinds, operators, comparator count); refusals that depend on representation kinds (value vs sequence) are decided by the executed implementation only",
+    "lean/FaxVerif/C09/Model.lean `mdKinds`: the table of metadata kinds (needed keys, whitelists) is written by hand from process_metadata; every generated dictionary is run through model and implementation and the verdicts are compared",
+    "the harness reduces a metadata dictionary to (metadata_type, key set, truth of contains_collection) and an inject_code block to its dataclass fields with defaults filled in",
 ]
 ASSUMPTIONS = ["'raises' means any exception escaping apply_ast_transformations + write_cpp_files"]
 LEVEL_TEXT = (
@@ -43,11 +75,18 @@ LEVEL_TEXT = (
     "dispatch tables refuses exactly the trees containing such a node, at any depth — errors propagate, nothing is skipped; decide-proofs "
     "that the documented operators/calls are in the tables and the undocumented ones are not. The real pipeline is run on a malformed "
     "stream (one unsupported construct grafted at a random live position of an otherwise valid query); it must raise, and for table-driven "
-    "grafts the model's prediction is compared."
+    "grafts the model's prediction is compared. Lean 4 theorems call_refuses_exactly / surplus_argument_refused / missing_argument_refused "
+    "(a call site is refused exactly when argument count or call style differ from the declaration), md_refuses_exactly / md_any_position "
+    "(a metadata dictionary is refused exactly when type or keys are malformed, at any place of the list), inject_refuses_exactly "
+    "(contradictory inject_code blocks, wherever the two stand), jobscript_refuses_exactly (conflict, dangling dependency or circle among "
+    "ALL job-script blocks of the query; corollary of C15.complete); the same predicates are evaluated on the implementation's outcome for "
+    "every generated wrong-arity call and malformed metadata list."
 )
 LEVEL_NOTE = (
     "The theorem is about the dispatch model; that the real visitor raises for each unsupported construct is sampled (every graft kind x "
-    "random positions x three backends each run). Known: a top-level SelectMany of objects writes raw pointers; call keywords are dropped."
+    "random positions x three backends each run). Known: a top-level SelectMany of objects writes raw pointers; call keywords are dropped; "
+    "a surplus argument of Select / Where is dropped. The arity and metadata models are models of the checks (build_CPPCodeValue, "
+    "process_metadata, ok_to_add_code_block, generate_script_block); that the executor hands EVERY block to them is sampled."
 )
 TECHNIQUE = "Lean 4 theorem on a dispatch model over tables regenerated from source + malformed-query stream against the real pipeline"
 DESIGN_REF = "DESIGN.md §4 C09"
@@ -119,6 +158,8 @@ def positions(q, path=(), dead_elem=False, skip=None):
         k = q.get("k")
         if k == "meth" and q["n"] in ("i", "j", "d", "g", "f"):
             out.append(("meth", path))
+        if k == "coll":
+            out.append(("coll", path))
         if k in ("Count", "Sum") or (k == "bin") or (k == "meth" and q["n"] in ("i", "j", "d", "g", "f")):
             out.append(("num", path))
         ignores = k in ("Select", "Where", "SelectMany", "Aggregate") and "x" in q and not _uses(q.get("f"), q["x"])
@@ -242,7 +283,7 @@ def gen_cases(ctx, n):
     for i in range(n):
         b = P.BACKENDS[i % 3]
         host = cgroup.gen_case(ctx.rng, backend=b, nevents=1)
-        pos = positions(host.query)
+        pos = [p for p in positions(host.query) if p[0] != "coll"]
         if not pos:
             continue
         kind, path = ctx.rng.choice(pos)
@@ -305,6 +346,503 @@ def judge_case(ctx, c, r):
         ctx.count("harness:python-syntax")
 
 
+# ================================================================ wrong-arity calls
+# Callees with a FIXED parameter list. A case is (host query, live position, callee, number of arguments written,
+# call style written); its *twin* is the same graft with the declared arity and style. The twin must be accepted
+# for the case to count (otherwise the refusal says nothing about arity), the case itself must be refused.
+
+ARG_POOL = ["{0}", "{0}", "1.5", "2", "({0} + 1)"]
+
+
+def _args(rng, n, first="{0}"):
+    return ([first] + [rng.choice(ARG_POOL) for _ in range(n - 1)]) if n > 0 else []
+
+
+def _user_spec(name, k, method, et):
+    ps = ["pa", "pb", "pc"][:k]
+    d = {"metadata_type": "add_cpp_function", "name": name, "include_files": [], "arguments": ps,
+         "code": ["auto result = " + " + ".join((["vpo->d()"] if method else []) + ps or ["1.0"]) + ";"], "return_type": "double"}
+    if method:
+        d["method_object"] = "vpo"
+        d["instance_object"] = et
+    return d
+
+
+def _callees(b):
+    """(kind, declared arity, declared as method?, style can be flipped?, where it can be grafted)"""
+    cs = [("userfn", None, False, True, "num"), ("usermeth", None, True, True, "meth"), ("DeltaR", 4, False, True, "num"),
+          ("collection", 1, True, False, "coll"), ("Range", 2, False, False, "num"), ("First", 0, True, False, "meth"),
+          ("Count", 0, True, False, "meth")]
+    if b == "atlas":
+        cs += [("getAttributeFloat", 1, True, True, "meth"), ("getAttributeVectorFloat", 1, True, True, "meth")]
+    return cs
+
+
+def _call_text(kind, name, n, as_method, rng):
+    """format string of the grafted expression: {0} = the host's numeric node, {1} = the receiver (a plain name)"""
+    if kind in ("userfn", "usermeth", "DeltaR"):
+        a = ", ".join(_args(rng, n))
+        return f"{{1}}.{name}({a})" if as_method else f"{name}({a})"
+    if kind in ("getAttributeFloat", "getAttributeVectorFloat"):
+        a = ", ".join(_args(rng, n, first="'w'"))
+        call = f"{{1}}.{kind}({a})" if as_method else f"{kind}({a})"
+        return call if kind == "getAttributeFloat" else call + ".Count()"
+    if kind == "Range":
+        a = ", ".join((["0", "3", "1", "2"])[:n])
+        return f"({{0}} + Range({a}).Count())"
+    if kind in ("First", "Count"):
+        a = ", ".join(_args(rng, n))
+        return f"{{1}}.vs().{kind}({a})"
+    raise ValueError(kind)
+
+
+def _graft_fmt(kind, name, n, as_method, rng):
+    """format string of the graft; {0} = the host node (for a collection accessor: the event), {1} = the receiver,
+    {2} = the bank name the host asked for"""
+    if kind == "collection":
+        return "{0}.{3}(" + ", ".join((["{2}"] + [json.dumps(x) for x in ("bb", "ba2", "zz")])[:n]) + ")"
+    return _call_text(kind, name, n, as_method, rng)
+
+
+def _arity_render(c, host_q, path):
+    """the case `c` (callee, counts, styles, format strings) grafted at `path` of `host_q`"""
+    node = get_at(host_q, path)
+    b = c["backend"]
+
+    def graft(fmt):
+        if c["where"] == "coll":
+            return RAW(fmt.replace("{2}", json.dumps(node["bank"]).replace("{", "{{").replace("}", "}}")).replace("{3}", node["c"]), node["e"])
+        return RAW(fmt, node, node["o"] if node.get("k") == "meth" else {"k": "var", "n": "zz_no_receiver"})
+
+    bad, twin = set_at(host_q, path, graft(c["fmt"])), set_at(host_q, path, graft(c["twin_fmt"]))
+    base = qgen.metadata(b) + c["extra"]
+    if c["where"] == "coll":
+        c = dict(c, callee=node["c"])
+    return dict(c, host=host_q, path=list(path), src=render_functional_raw(bad, c["extra"]), twin_src=render_functional_raw(twin, c["extra"]),
+                full_source=render_functional_raw(bad, base), twin_full=render_functional_raw(twin, base))
+
+
+MIN_HOST = {"k": "Select", "s": {"k": "ds"}, "x": "e1", "f": {"k": "Select", "s": {"k": "coll", "e": {"k": "var", "n": "e1"}, "c": "As", "bank": "ba"},
+                                                               "x": "x2", "f": {"k": "meth", "o": {"k": "var", "n": "x2"}, "n": "d"}}}
+
+
+def gen_arity_cases(ctx, n):
+    rng = ctx.rng
+    cases = []
+    for i in range(n):
+        b = P.BACKENDS[i % 3]
+        host = cgroup.gen_case(rng, backend=b, nevents=1)
+        pos = positions(host.query)
+        have = {k for k, _ in pos}
+        cands = [c for c in _callees(b) if c[4] in have]
+        if not cands:
+            continue
+        kind, k, is_meth, flip, where = rng.choice(cands)
+        # a method-style graft needs a plain name as receiver (the plug-in pass only recognises those)
+        ps = [p for kk, p in pos if kk == where and (where != "meth" or get_at(host.query, p)["o"].get("k") == "var")]
+        if flip and not is_meth:
+            ps_meth = [p for kk, p in pos if kk == "meth" and get_at(host.query, p)["o"].get("k") == "var"]
+        else:
+            ps_meth = ps
+        if not ps:
+            continue
+        extra = []
+        name = kind
+        if k is None:
+            k = rng.randint(0, 3) if kind == "userfn" else rng.randint(0, 2)
+            name = f"vp{'m' if is_meth else 'f'}{k}"
+            extra = [_user_spec(name, k, is_meth, qgen.elem_type(b, "As"))]
+        # what is written: mostly a wrong count in the declared style; sometimes the wrong style
+        nargs = rng.choice([x for x in range(0, k + 3) if x != k])
+        as_meth = is_meth
+        r = rng.random()
+        if flip and r < 0.2 and (is_meth or ps_meth):
+            as_meth = not is_meth
+            if r < 0.12:
+                nargs = k
+            if as_meth:
+                ps = ps_meth
+        path = rng.choice(ps)
+        node = get_at(host.query, path)
+        st = rng.getstate()
+        fmt = _graft_fmt(kind, name, nargs, as_meth, rng)
+        rng.setstate(st)  # the twin draws the same argument expressions
+        twin_fmt = _graft_fmt(kind, name, k, is_meth, rng)
+        c = {"family": "arity", "backend": b, "graft": f"arity:{kind}", "callee": name, "arity": k, "is_method": is_meth,
+             "nargs": nargs, "as_method": as_meth, "host": host.query, "extra": extra, "fmt": fmt, "twin_fmt": twin_fmt, "where": where}
+        cases.append(_arity_render(c, host.query, path))
+    # the output call itself: ResultTTree(source, names, tree, file)
+    for b in P.BACKENDS:
+        full = ["Select(DSMD, lambda e: e.As('ba').Count())", "['n']", "'t'", "'f.root'", "5", "'x'"]
+        for nargs in (2, 3, 5, 6):
+            src = f"ResultTTree({', '.join(full[:nargs])})"
+            twin = f"ResultTTree({', '.join(full[:4])})"
+            mds = _md_src(qgen.metadata(b))
+            cases.append({"family": "arity", "backend": b, "graft": "arity:ResultTTree", "callee": "ResultTTree", "arity": 4, "is_method": False,
+                          "nargs": nargs, "as_method": False, "host": None, "extra": [], "src": src.replace("DSMD", "ds0"), "twin_src": twin.replace("DSMD", "ds0"),
+                          "full_source": src.replace("DSMD", mds), "twin_full": twin.replace("DSMD", mds)})
+    return cases
+
+
+# ================================================================ malformed metadata
+# A case is a valid host query + well-formed extra metadata blocks with ONE malformation, the blocks spread over
+# random places of the metadata chain (between the declarations of the data model around the dataset, and around
+# later operators of the top-level chain). The twin carries the same blocks without the malformation.
+
+INJECT_FIELDS = ["body_includes", "header_includes", "private_members", "instance_initialization", "ctor_lines", "initialize_lines", "link_libraries"]
+NEAR_MISS = [lambda k: k + "s", lambda k: k[:-1], lambda k: k.replace("_", "-"), lambda k: k.upper(), lambda k: k.replace("_", "")]
+STRAY_KEYS = ["bogus", "comment", "depends_on", "link_libraries", "element_pointer", "include_files", "script", "priority"]
+
+
+def _js(name, script, deps):
+    return {"metadata_type": "add_job_script", "name": name, "script": list(script), "depends_on": list(deps)}
+
+
+def gen_job_blocks(rng):
+    """(well-formed blocks, malformed blocks, what was done). Names depend on EARLIER names only (a DAG); copies of a
+    block repeat its script and may carry other (earlier) dependencies."""
+    names = rng.sample(["calib", "setup", "tools", "syst", "out"], rng.randint(1, 4))
+    script = {n: [f"# vp {n} line {j}" for j in range(rng.randint(0, 2))] for n in names}
+    blocks = []
+    for i, n in enumerate(names):
+        for _ in range(rng.choice([1, 1, 1, 2, 3])):
+            blocks.append(_js(n, script[n], rng.sample(names[:i], rng.randint(0, min(2, i)))))
+    rng.shuffle(blocks)
+    bad = copy.deepcopy(blocks)
+    how = rng.choice(["conflict", "conflict", "dangling", "dangling", "cycle", "cycle"])
+    victim = rng.randrange(len(bad))
+    as_copy = rng.random() < 0.6 or how == "conflict"
+    tgt = copy.deepcopy(bad[victim]) if as_copy else bad[victim]
+    if how == "conflict":
+        sc = tgt["script"]
+        edit = rng.choice(["append", "drop", "change", "swap"] if len(sc) >= 2 else ["append", "drop", "change"] if sc else ["append"])
+        if edit == "append":
+            sc.insert(rng.randint(0, len(sc)), "# vp another line")
+        elif edit == "drop":
+            sc.pop(rng.randrange(len(sc)))
+        elif edit == "change":
+            j = rng.randrange(len(sc))
+            sc[j] = sc[j] + " v2"
+        else:
+            sc.reverse()
+        tgt["depends_on"] = list(tgt["depends_on"]) if rng.random() < 0.7 else []
+    elif how == "dangling":
+        tgt["depends_on"].insert(rng.randint(0, len(tgt["depends_on"])), rng.choice(["never_sent", "Calib", "setup2", ""]))
+    else:
+        # a circle: the victim depends on itself, or on a name that (then) depends on it
+        i = names.index(tgt["name"])
+        other = rng.choice(names[i:])
+        tgt["depends_on"].append(other)
+        if other != tgt["name"]:
+            bad.insert(rng.randint(0, len(bad)), _js(other, script[other], [tgt["name"]]))
+    if as_copy:
+        bad.insert(rng.randint(0, len(bad)), tgt)
+    return blocks, bad, how
+
+
+def _ib(name, fields):
+    d = {"metadata_type": "inject_code", "name": name}
+    d.update(fields)
+    return d
+
+
+def gen_inject_blocks(rng):
+    names = rng.sample(["vp_tool", "vp_corr", "vp_hist"], rng.randint(1, 3))
+    body = {}
+    for n in names:
+        fs = rng.sample(INJECT_FIELDS, rng.randint(1, 2))
+        body[n] = {f: [f"// vp {n} {f} {j}" for j in range(rng.randint(1, 2))] for f in fs}
+    blocks = [_ib(n, copy.deepcopy(body[n])) for n in names for _ in range(rng.choice([1, 1, 2]))]
+    rng.shuffle(blocks)
+    bad = copy.deepcopy(blocks)
+    tgt = copy.deepcopy(rng.choice(bad))
+    fs = [f for f in INJECT_FIELDS if f in tgt]
+    edit = rng.choice(["line", "extra_line", "drop_line", "move", "add_field", "drop_field"])
+    f = rng.choice(fs)
+    if edit == "line":
+        tgt[f][rng.randrange(len(tgt[f]))] += " v2"
+    elif edit == "extra_line":
+        tgt[f].insert(rng.randint(0, len(tgt[f])), "// vp more")
+    elif edit == "drop_line":
+        tgt[f].pop(rng.randrange(len(tgt[f])))  # an emptied field equals the default: still differs from the kept block
+    elif edit == "move":
+        dest = rng.choice([x for x in INJECT_FIELDS if x not in tgt])
+        tgt[dest] = tgt.pop(f)
+    elif edit == "add_field":
+        tgt[rng.choice([x for x in INJECT_FIELDS if x not in tgt])] = ["// vp added"]
+    else:
+        tgt.pop(f)
+    bad.insert(rng.randint(0, len(bad)), tgt)
+    return blocks, bad, "inject_conflict:" + edit
+
+
+def md_bases(b):
+    et = qgen.elem_type(b, "As")
+    coll = {"metadata_type": qgen.MDTYPE[b], "name": "Cs", "include_files": ["vp/Cc.h"], "container_type": f"{qgen.PREFIX[b]}::Cc{qgen.CONT[b]}",
+            "element_type": f"{qgen.PREFIX[b]}::Cc", "contains_collection": True}
+    return [
+        _js("vpjs", ["# vp"], []),
+        {"metadata_type": "add_cpp_function", "name": "vpq", "include_files": [], "arguments": ["x"], "code": ["auto result = x;"], "return_type": "double"},
+        {"metadata_type": "add_method_type_info", "type_string": et, "method_name": "q", "return_type": "int"},
+        {"metadata_type": "add_method_type_info", "type_string": et, "method_name": "qs", "return_type_element": "double"},
+        {"metadata_type": "define_enum", "namespace": "VpNs", "name": "Color", "values": ["red", "green"]},
+        {"metadata_type": "inject_code", "name": "vpi", "body_includes": ["vp.h"]},
+        coll,
+    ]
+
+
+REQUIRED = {
+    "add_job_script": ["name", "script"],
+    "add_cpp_function": ["name", "include_files", "arguments", "code", "return_type"],
+    "add_method_type_info": ["type_string", "method_name", "return_type", "return_type_element"],
+    "define_enum": ["namespace", "name", "values"],
+    "inject_code": ["name"],
+}
+COLL_REQUIRED = ["name", "include_files", "container_type", "contains_collection"]
+
+
+def gen_key_blocks(rng, b):
+    base = copy.deepcopy(rng.choice(md_bases(b)))
+    ty = base["metadata_type"]
+    closed = ty == "inject_code" or ty.endswith("_event_collection_info")
+    bad = copy.deepcopy(base)
+    hows = ["drop_required", "misspell_required", "unknown_type", "no_type"] + (["stray_key", "stray_key"] if closed else []) + (["elem_mismatch"] if ty.endswith("_event_collection_info") else [])
+    how = rng.choice(hows)
+    req = [k for k in REQUIRED.get(ty, COLL_REQUIRED) if k in bad]
+    if how == "drop_required":
+        del bad[rng.choice(req)]
+    elif how == "misspell_required":
+        k = rng.choice(req)
+        k2 = rng.choice([m(k) for m in NEAR_MISS if m(k) != k and m(k) not in bad])
+        bad[k2] = bad.pop(k)
+    elif how == "stray_key":
+        bad[rng.choice([k for k in STRAY_KEYS if k not in bad and not (ty == "inject_code" and k in INJECT_FIELDS) and not (k == "link_libraries" and b == "atlas") and not (k == "element_pointer" and b != "atlas")])] = rng.choice([1, ["x"], "x", True])
+    elif how == "unknown_type":
+        bad["metadata_type"] = rng.choice([m(ty) for m in NEAR_MISS + [lambda k: "", lambda k: "add_" + k, lambda k: k.split("_", 1)[-1]] if m(ty) != ty])
+    elif how == "no_type":
+        v = bad.pop("metadata_type")
+        r = rng.random()
+        if r < 0.3:
+            bad[rng.choice(["metadata-type", "type", "metadata_types"])] = v
+        elif r < 0.5:
+            bad["metadata_type"] = rng.choice([None, 5])
+    else:
+        if b == "atlas" and rng.random() < 0.5:
+            del bad["element_type"]
+        else:
+            bad["contains_collection"] = False
+    return [base], [bad], f"{how}:{ty}"
+
+
+def place(rng, host_q, b, blocks):
+    """spread `blocks` over the metadata chain: level 0 = among the data-model declarations around ds0 (at a random
+    index), level i = around the i-th operator of the top-level chain. Returns (levels, sort keys)"""
+    depth = 0
+    cur = host_q
+    while cur["k"] != "ds":
+        depth += 1
+        cur = cur["s"]
+    return [(rng.choice([0, 0, 0] + list(range(1, depth + 1))), rng.random()) for _ in blocks]
+
+
+def render_placed(host_q, base, blocks, places):
+    chain, cur = [], host_q
+    while cur["k"] != "ds":
+        chain.append(cur)
+        cur = cur["s"]
+    chain.reverse()
+    nb = max(len(base), 1)
+    lvl0 = sorted([((i + 0.5) / nb, 0, d) for i, d in enumerate(base)] + [(r, 1 + j, d) for j, (d, (l, r)) in enumerate(zip(blocks, places)) if l == 0], key=lambda t: (t[0], t[1]))
+    s = "ds0"
+    for _, _, d in lvl0:
+        s = f"MetaData({s}, {d!r})"
+    for i, c in enumerate(chain, 1):
+        s = f"{c['k']}({s}, lambda {c['x']}: {render_raw(c['f'])})"
+        for d, (l, r) in sorted(zip(blocks, places), key=lambda t: t[1][1]):
+            if l == i:
+                s = f"MetaData({s}, {d!r})"
+    return s
+
+
+def gen_md_cases(ctx, n):
+    rng = ctx.rng
+    cases = []
+    for i in range(n):
+        b = P.BACKENDS[i % 3]
+        host = cgroup.gen_case(rng, backend=b, nevents=1)
+        fam = rng.choice(["job"] * 5 + ["inject", "keys"] if b == "atlas" else ["inject", "keys", "keys"])
+        if fam == "job":
+            good, bad, how = gen_job_blocks(rng)
+        elif fam == "inject":
+            good, bad, how = gen_inject_blocks(rng)
+        else:
+            good, bad, how = gen_key_blocks(rng, b)
+        places = place(rng, host.query, b, bad)
+        # the twin keeps the places of the blocks it shares with the malformed list
+        if len(good) == len(bad):
+            gplaces = places
+        else:
+            keep = _common_places(good, bad, places, rng, host.query, b)
+            gplaces = keep
+        cases.append(_md_render({"family": "metadata", "backend": b, "graft": f"md:{fam}:{how}", "md_family": fam}, host.query, bad, places, good, gplaces))
+    return cases
+
+
+def _md_render(c, host_q, bad, places, good, gplaces):
+    base = qgen.metadata(c["backend"])
+    return dict(c, host=host_q, blocks=bad, good=good, places=places, gplaces=gplaces,
+                src=render_placed(host_q, [], bad, places), twin_src=render_placed(host_q, [], good, gplaces),
+                full_source=render_placed(host_q, base, bad, places), twin_full=render_placed(host_q, base, good, gplaces),
+                all_mds=base + bad)
+
+
+def _common_places(good, bad, places, rng, host_q, b):
+    """places for the twin: each good block takes the place of a bad block of the same name (in order), else a new one"""
+    used, out = set(), []
+    for g in good:
+        j = next((j for j, x in enumerate(bad) if j not in used and x.get("name") == g.get("name")), None)
+        if j is None:
+            out.append(place(rng, host_q, b, [g])[0])
+        else:
+            used.add(j)
+            out.append(places[j])
+    return out
+
+
+def _md_req(d):
+    ty = d.get("metadata_type") if isinstance(d.get("metadata_type"), str) else None
+    return {"ty": ty, "keys": [k for k in d if k != "metadata_type"], "cc": bool(d.get("contains_collection"))}
+
+
+def md_requests(c):
+    """the Spec / model questions one metadata case raises"""
+    reqs = [{"op": "md", "mds": [_md_req(d) for d in c["all_mds"]]}]
+    if c["md_family"] == "job":
+        reqs.append({"op": "job", "blocks": [{"name": d["name"], "script": d["script"], "deps": d.get("depends_on", [])} for d in c["blocks"]]})
+    if c["md_family"] == "inject":
+        reqs.append({"op": "inject", "blocks": [{"name": d["name"], "fields": [list(d.get(f, [])) for f in INJECT_FIELDS]} for d in c["blocks"]]})
+    return reqs
+
+
+def _requests(c):
+    if c["family"] == "arity":
+        return [{"op": "call", "arity": c["arity"], "is_method": c["is_method"], "nargs": c["nargs"], "as_method": c["as_method"]}]
+    return md_requests(c)
+
+
+def spec_verdicts(ctx, cases):
+    """per case: the Spec predicate on the input (`malformed`) and the model's verdict (`refuses`), from the driver"""
+    reqs, owner = [], []
+    for idx, c in enumerate(cases):
+        rs = _requests(c)
+        reqs += rs
+        owner += [idx] * len(rs)
+    ans = ctx.driver(DRIVER, reqs)
+    out = [{"malformed": False, "refuses": False, "bad": False, "why": []} for _ in cases]
+    for idx, a in zip(owner, ans):
+        v = out[idx]
+        if "bad" in a:
+            v["bad"] = True
+            continue
+        v["malformed"] |= a["malformed"]
+        v["refuses"] |= a["refuses"]
+        v["why"] += [k for k in ("conflict", "missing", "cyclic") if a.get(k)][:1]
+    return out
+
+
+def _describe(c, v):
+    case = {"backend": c["backend"], "graft": c["graft"], "source": c["src"], "full_source": c["full_source"]}
+    if c["family"] == "arity" or c.get("good"):
+        case["well_formed_twin"] = c["twin_src"]
+    if c["family"] == "arity":
+        case.update({k: c[k] for k in ("callee", "arity", "is_method", "nargs", "as_method")})
+        what = (f"a call of {c['callee']} ({c['arity']} declared parameter(s), a {'method' if c['is_method'] else 'function'}) written with {c['nargs']} argument(s) "
+                f"as a {'method' if c['as_method'] else 'function'} is accepted and a package is returned")
+    else:
+        case.update({"metadata_blocks": c["blocks"]})
+        why = "/".join(v["why"])
+        what = f"malformed metadata ({c['graft'][3:]}{': ' + why if why and why not in c['graft'] else ''}) is accepted and a package is returned"
+    return case, what
+
+
+def _fails(ctx, cands):
+    """of the candidate cases, the first that is malformed (Spec) and nevertheless translated (implementation)"""
+    if not cands:
+        return None
+    for c, v in zip(cands, spec_verdicts(ctx, cands)):
+        if v["malformed"] and not v["bad"]:
+            r = P.translate_functional(c["backend"], c["full_source"])
+            if r["ok"]:
+                return c, v, r
+    return None
+
+
+def shrink(ctx, c, v, r):
+    """a smaller failing case: the minimal host query, then as few metadata blocks as still fail"""
+    if c.get("host") is None:
+        return c, v, r
+    if c["family"] == "arity":
+        path = ("f", "s") if c["where"] == "coll" else ("f", "f")
+        return _fails(ctx, [_arity_render(c, MIN_HOST, path)]) or (c, v, r)
+    cur = _fails(ctx, [_md_render(c, MIN_HOST, c["blocks"], [(0, p[1]) for p in c["places"]], c["good"], [(0, p[1]) for p in c["gplaces"]])]) or (c, v, r)
+    for _ in range(8):
+        cc = cur[0]
+        if len(cc["blocks"]) <= 1:
+            break
+        cands = []
+        for j in range(len(cc["blocks"])):
+            bad = cc["blocks"][:j] + cc["blocks"][j + 1:]
+            places = cc["places"][:j] + cc["places"][j + 1:]
+            cands.append(_md_render(cc, cc["host"], bad, places, [], []))
+        nxt = _fails(ctx, cands)
+        if nxt is None:
+            break
+        cur = nxt
+    return cur
+
+
+def run_new_streams(ctx, cases, judge=True):
+    """arity and metadata cases: run case and twin on the real pipeline, ask the driver for the Spec predicate
+    (`malformed`) and the model's verdict, evaluate `refusedIfMalformed` on the observed outcome"""
+    verdicts = spec_verdicts(ctx, cases)
+    shrunk = 0
+    for c, v in zip(cases, verdicts):
+        r = P.translate_functional(c["backend"], c["full_source"])
+        t = P.translate_functional(c["backend"], c["twin_full"])
+        key = f"{c['backend']}|{c['graft']}|{c['src']}"
+        ctx.count("graft:" + ":".join(c["graft"].split(":")[:3]))
+        ctx.count("outcome:" + ("refused" if not r["ok"] else "ACCEPTED"))
+        ctx.count(f"twin:{c['family']}:" + ("accepted" if t["ok"] else "refused"))
+        if v["bad"]:
+            ctx.count("harness:driver-bad-answer")
+            continue
+        if c["family"] == "arity":
+            ctx.count(f"arity:declared={c['arity']},written={c['nargs']}" + ("" if c["as_method"] == c["is_method"] else ",style-flipped"))
+        sample = {"backend": c["backend"], "graft": c["graft"], "query": c["src"], "outcome": r.get("error", "accepted"), "well-formed twin": t.get("error", "accepted")}
+        # non-trivial: the well-formed twin is translated, so the one malformation is what is being refused
+        ctx.case(key, t["ok"], sample)
+        case, what = _describe(c, v)
+        if v["malformed"] and r["ok"]:
+            if shrunk < 2:
+                shrunk += 1
+                c2, v2, r2 = shrink(ctx, c, v, r)
+                case, what = _describe(c2, v2)
+                key, r = f"{c2['backend']}|{c2['graft']}|{c2['src']}", r2
+            obs = {"generated_code": r["query"]}
+            if r.get("job_option_additions") is not None:
+                obs["job_option_additions"] = r["job_option_additions"]
+            ctx.violation(key=key, what=what, case=case, observed=obs, how="translate `full_source` on `backend`: ./check C09 --replay <this file>")
+            continue
+        if not v["malformed"]:
+            # the generator meant to break something and the Spec does not see it: a slip of the harness, never a verdict
+            ctx.count("harness:not-malformed")
+            continue
+        if v["refuses"] != (not r["ok"]):
+            ctx.disagreement(f"{c['family']} model vs translator (refuses?)", case, "refuses" if v["refuses"] else "accepts", "refused" if not r["ok"] else "accepted")
+        if c["family"] == "metadata" and not t["ok"]:
+            ctx.disagreement("metadata model vs translator (well-formed twin)", dict(case, full_source=c["twin_full"]), "accepts", f"refused: {t['error']}: {t['message'][:200]}")
+
+
 def run(ctx):
     # known findings
     for e in ctx.known_entries("known") + ctx.known_entries("fixed"):
@@ -313,6 +851,10 @@ def run(ctx):
         if r["ok"]:
             key = e["key"] if e["status"] == "known" else "regressed:" + e["key"]
             ctx.violation(key=key, what=e["what"], case=c, observed={"generated_code": r["query"]})
+    # minimised past failures of the arity / metadata families
+    corpus = [c["case"] for c in vlib.corpus_cases(ID) if "case" in c]
+    if corpus:
+        run_new_streams(ctx, corpus)
     n = 300 if ctx.tier == "quick" else 3000
     cases = gen_cases(ctx, n)
     results = [run_case(c) for c in cases]
@@ -326,6 +868,9 @@ def run(ctx):
             ctx.disagreement("dispatch model vs translator (refuses?)", {"backend": c["backend"], "graft": c["graft"], "source": c["src"]}, a, "refused" if not r["ok"] else "accepted")
     for c, r in zip(cases, results):
         judge_case(ctx, c, r)
+    # calls with a fixed parameter list written with another number of arguments / in the other style; malformed metadata
+    na, nm = (150, 210) if ctx.tier == "quick" else (1500, 2100)
+    run_new_streams(ctx, gen_arity_cases(ctx, na) + gen_md_cases(ctx, nm))
     ctx.extra_cov["exhaustive"] = False
 
 
@@ -335,6 +880,12 @@ def search(ctx, broken):
         r = run_case(c)
         if r["ok"]:
             return {"key": f"{c['backend']}|{c['graft']}|{c['src']}", "what": f"unsupported construct ({c['graft']}) accepted", "case": {"backend": c["backend"], "graft": c["graft"], "source": c["src"]}, "observed": {"generated_code": r["query"]}}
+    more = gen_arity_cases(ctx, 600) + gen_md_cases(ctx, 900)
+    hit = _fails(ctx, more)
+    if hit is not None:
+        c, v, r = shrink(ctx, *hit)
+        case, what = _describe(c, v)
+        return {"key": f"{c['backend']}|{c['graft']}|{c['src']}", "what": what, "case": case, "observed": {"generated_code": r["query"]}}
     return None
 
 
